@@ -33,7 +33,9 @@ def run(ctx):
     ctx.step(common.no_repeated_moves, ctx, "C17.moves", fns, floor=1)
     ctx.step(value, ctx)
     ctx.step(source, ctx)
+    ctx.step(addtype, ctx)
     ctx.step(pair, ctx)
+    ctx.step(common.generic_witnesses, ctx, "C17.generic", ["C17"])
     ctx.step(common.raii_only, ctx, "C17.raii", ["SearchableObjectHolder.hpp"], floor=10)
     if ctx.tier == "thorough":
         ctx.step(cppcheck_xref, ctx)
@@ -83,6 +85,22 @@ def source(ctx):
             ctx.ob(rid, bad is None, f.loc(r), "%s returns an object taken from objectMap (or null)" % f.name,
                    "" if bad is None else "the returned pointer comes from member '%s': an answer remembered outside the map "
                    "survives the entry's removal / replacement" % bad["m"]["name"], fn=f.label, inst=f.qname)
+
+
+def addtype(ctx):
+    """addType() tags a stored object whether or not it already has tags: it must be able to CREATE the tag entry"""
+    rid = "C17.addtype"
+    ctx.rule(rid, "addType can create the tag list of a name that has none yet", floor=1)
+    fs = list(ctx.fb.functions(rec=CLS, name="addType"))
+    if not fs:
+        ctx.broken("SearchableObjectHolder::addType not instantiated")
+    for f in fs:
+        creating = [st for st in _map_calls(f, "typeMap") if
+                    (st["k"] == "CXXOperatorCallExpr" and st.get("op") == "[]") or
+                    (st["k"] == "CXXMemberCallExpr" and st["callee"]["name"] in ("emplace", "try_emplace", "insert", "insert_or_assign", "emplace_hint"))]
+        ctx.ob(rid, bool(creating), f.where, "addType reaches an inserting access to typeMap (operator[], emplace, insert)",
+               "" if creating else "typeMap is only searched: an object stored without tags (two-argument addObject, a copy, a "
+               "re-added name) can never be tagged", fn=f.label, inst=f.qname)
 
 
 def _map_calls(f, mapname):
